@@ -717,3 +717,78 @@ package otto
 //@   ensures o.property == old(o.property)
 //@   modifies object.propertyOrder, elems(string), map(string;property)
 //@   nothrow
+
+// ---------------------------------------------------------------------------
+// runtime.go, type_function.go: the scope stack (C18, C02)
+// ---------------------------------------------------------------------------
+
+// The call stack is the chain rt.scope -> outer -> ... ; depth counts the frames below.
+// enterScope pushes exactly one frame or throws RangeError leaving the stack untouched;
+// with limit L the push succeeds iff the new depth is below L, so exactly depths 0..L-1
+// are admitted.
+//@ func (*runtime).enterScope
+//@   props C18 C02
+//@   requires rt != nil && scop != nil && scop != rt.scope
+//@   ensures rt.scope == scop && scop.outer == old(rt.scope)
+//@   ensures old(rt.scope) != nil ==> scop.depth == old(rt.scope.depth) + 1
+//@   ensures old(rt.scope) != nil && rt.stackLimit != 0 ==> scop.depth < rt.stackLimit
+//@   writes_only_at rt.scope, scop.outer, scop.depth
+//@   throws rt.scope != nil && rt.stackLimit != 0 && rt.scope.depth + 1 >= rt.stackLimit
+//@   unwind_ensures rt.scope == old(rt.scope)
+//@   modifies runtime.scope, scope.outer, scope.depth, exception.value
+
+//@ func (*runtime).leaveScope
+//@   props C18
+//@   requires rt != nil && rt.scope != nil
+//@   ensures rt.scope == old(rt.scope.outer)
+//@   writes_only_at rt.scope
+//@   modifies runtime.scope
+//@   nothrow
+
+//@ func newScope
+//@   inline
+
+// enterFunctionScope pushes one fresh frame whose outer link is the previous top; if it
+// throws (ToObject of the receiver, stack limit) the stack is as before.  The links of
+// the frames already on the stack are never rewritten.
+//@ func (*runtime).enterFunctionScope
+//@   props C18
+//@   requires rt != nil
+//@   dyn_preserves runtime.scope, scope.outer
+//@   preserves scope.outer
+//@   fresh_refs
+//@   writes_only_at rt.scope
+//@   ensures rt.scope != nil && rt.scope != old(rt.scope) && rt.scope.outer == old(rt.scope)
+//@   unwind_ensures rt.scope == old(rt.scope)
+
+// Inductive hypothesis for code reached through function values (native functions, host
+// functions, interrupt handlers): it returns or panics with the scope stack of every
+// runtime as it found it and never relinks a frame.  ASSUMED (dyn_preserves) of dynamic
+// callees; proved below for [[Call]] itself.
+
+// the compiled-function body runner: same discipline (proved for object.call, assumed here)
+//@ func (*runtime).cmplCallNodeFunction
+//@   trusted
+//@   requires rt != nil
+//@   preserves runtime.scope, scope.outer
+
+// An object belongs to one runtime for its whole life: object.runtime is set when the
+// object is allocated (and by the cloner for the copies it creates).
+//@ stablefield[C18,C20,C17] object.runtime writers=objectClone
+
+// shape of function objects (established by the constructors in type_function.go)
+//@ spec fnOK(x *object) bool = x.runtime != nil &&
+//@+  (is(x.value, nativeFunctionObject) ==> x.value.(nativeFunctionObject).call != nil) &&
+//@+  (is(x.value, bindFunctionObject) ==> x.value.(bindFunctionObject).target != nil) &&
+//@+  (is(x.value, nodeFunctionObject) ==> x.value.(nodeFunctionObject).node != nil)
+
+// [[Call]]: whichever way the call ends - return, JavaScript exception, stack-limit
+// RangeError, panic of a host function or of an interrupt handler - the scope stack of
+// every runtime is exactly what it was before the call, and no existing frame was relinked.
+//@ func (*object).call
+//@   props C18
+//@   requires o != nil && o.runtime != nil
+//@   requires forall x *object :: x != nil ==> fnOK(x)
+//@   dyn_preserves runtime.scope, scope.outer
+//@   preserves runtime.scope, scope.outer
+//@   fresh_refs
